@@ -129,6 +129,33 @@ def d1b(chk, prog):
     tb.done("by_gene does not yield each gene's first..last bins and the Antitarget stretches around them, every bin exactly once")
 
 
+def d3a(chk, prog):
+    """get_gene_intervals on literal bins: per chromosome, each named gene with its sorted bin starts and the furthest bin end"""
+    fi = prog.fn("cnvlib.reports.get_gene_intervals")
+    tb = Table(chk, "breakpoint-predicate", "get_gene_intervals on literal bins (a bin nested in a longer one; rows listed far-to-near; ignored names; two chromosomes)", fi.loc(), fi.qn)
+    cases = {"sorted bins, the last one nested in the first": [("chr1", 0, 100, "A"), ("chr1", 10, 50, "A"), ("chr1", 200, 300, "B"), ("chr2", 0, 10, "C")],
+             "gene rows listed from the far end": [("chr1", 200, 300, "A"), ("chr1", 100, 200, "A"), ("chr1", 0, 100, "A"), ("chr1", 400, 500, "B")],
+             "ignored and antitarget names between genes": [("chr1", 0, 10, "A"), ("chr1", 10, 20, "-"), ("chr1", 20, 30, "Antitarget"), ("chr1", 30, 40, "A"), ("chr1", 50, 60, "B")],
+             "genes out of order on the chromosome": [("chr1", 500, 600, "B"), ("chr1", 0, 100, "A")]}
+    for label, rows in cases.items():
+        W.reset()
+        g = make_ga("CopyNumArray", [dict(chromosome=c, start=s_, end=e_, gene=nm, log2=0) for c, s_, e_, nm in rows], {}, exact=True)
+        it = Interp(prog)
+        out = tb.guard(lambda: it.run(fi.qn, [g]), label)
+        if out is None:
+            continue
+        want = {}
+        for c in dict.fromkeys(r[0] for r in rows):
+            genes = {}
+            for r in rows:
+                if r[0] == c and r[3] not in ("-", "Antitarget", ".", "CGH", "Background"):
+                    genes.setdefault(r[3], []).append(r)
+            want[c] = sorted(((nm, sorted(r[1] for r in rs), max(r[2] for r in rs)) for nm, rs in genes.items()), key=lambda t: t[1])
+        got = {c: [(nm, [int(T(x).cval()) for x in st], int(T(en).cval())) for nm, st, en in v] for c, v in dict(out).items()}
+        tb.cell(got == want, dict(case=label, got=got, want=want))
+    tb.done("a gene's interval is not (sorted starts of its bins, the furthest end of its bins), genes in order of their first bin")
+
+
 def grp_rows(weights):
     s = [Term.sym(f"s{i}", 0, INF, True) for i in range(3)]
     e = [Term.sym(f"e{i}", 0, INF, True) for i in range(3)]
@@ -329,6 +356,7 @@ def run(chk):
     d1b(chk, prog)
     d1(chk, prog)
     d2(chk, prog)
+    d3a(chk, prog)
     d3(chk, prog)
 
 
